@@ -80,7 +80,7 @@ type c10 struct{}
 
 func init() { register(c10{}) }
 
-const c10Grid = 80
+const c10Grid = 84
 
 // c10Dial names the grid slots 64..67: no seam fault, the kernel-side connect of the SACK variant fails or
 // the handshake is useless (real loopback listener / policy route of the private namespace).
@@ -90,7 +90,7 @@ func (c10) ID() string     { return "C10" }
 func (c10) Level() string  { return "fault_enumeration" }
 func (c10) QuickRuns() int { return c10Grid * 7200 }
 func (c10) Rule() string {
-	return "fault grid: for each seeded base run (every variant, 1-6 TTLs, seeded topology and timing) the slots of the grid are executed with one injected fault each: handle construction fails; 1st/2nd SetPacketFilter fails; k-th WriteTo fails (k=1..8); k-th Read fails fatally (k=1..20), returns a spurious deadline-exceeded (k=1..10) or zero bytes (k=1..10); k-th SetReadDeadline fails (k=1..8); plus 5 slots with 2-3 seeded faults, plus 3 slots in which Sink.Close, Source.Close or both report an error (each handle must still be closed exactly once), plus 5 slots in which the k-th write (k=2..6) blocks for a seeded while and then fails (the receiver keeps accepting replies meanwhile), plus 4 slots in which the caller cancels the run (before its first operation, at a seeded instant while it runs, and together with a failing read: handles closed exactly once, none used after its Close, no goroutine left), plus 4 slots in which the SACK variant's real TCP connect fails or is useless (port closed, ENETUNREACH by policy route, SYN-ACK never captured, no SACK-permitted): an error, no result, handles closed exactly once. Run index i = base*80 + slot, so every slot of every base is covered systematically; non-trivial = the fault actually fired (k within the calls the run makes); distinct = distinct (variant, operation, k, class, base shape)"
+	return "fault grid: for each seeded base run (every variant, 1-6 TTLs, seeded topology and timing) the slots of the grid are executed with one injected fault each: handle construction fails; 1st/2nd SetPacketFilter fails; k-th WriteTo fails (k=1..8); k-th Read fails fatally (k=1..20), returns a spurious deadline-exceeded (k=1..10) or zero bytes (k=1..10); k-th SetReadDeadline fails (k=1..8); plus 5 slots with 2-3 seeded faults, plus 3 slots in which Sink.Close, Source.Close or both report an error (each handle must still be closed exactly once), plus 5 slots in which the k-th write (k=2..6) blocks for a seeded while and then fails (the receiver keeps accepting replies meanwhile), plus 4 slots in which the k-th read returns bytes (the next reply if one is waiting) together with a fatal error in the same call, plus 4 slots in which the caller cancels the run (before its first operation, at a seeded instant while it runs, and together with a failing read: handles closed exactly once, none used after its Close, no goroutine left), plus 4 slots in which the SACK variant's real TCP connect fails or is useless (port closed, ENETUNREACH by policy route, SYN-ACK never captured, no SACK-permitted): an error, no result, handles closed exactly once. Run index i = base*84 + slot, so every slot of every base is covered systematically; non-trivial = the fault actually fired (k within the calls the run makes); distinct = distinct (variant, operation, k, class, base shape)"
 }
 func (c10) Assumptions() []string {
 	return []string{"faults are injected at the Source/Sink seam and at handle construction; of the three real kernel calls only TCP connect is made to fail (closed port, unreachable policy route); UDP connect and TCP listen are not fault-injected", "a spurious deadline-exceeded or zero-length read may either fail the run or be skipped; anything else (partial path, success with a wrong path) is a violation"}
@@ -101,6 +101,9 @@ func c10Fault(slot int, rng *rand.Rand, timeoutMs int) []sim.Fault {
 		return []sim.Fault{{Actor: "c0", Op: op, K: k, Class: class}}
 	}
 	switch {
+	case slot >= 80:
+		// the k-th read hands over bytes together with a fatal error (slots 80-83)
+		return f("read", []int{1, 2, 3, 5}[slot-80]+between(rng, 0, 2), "fataldata")
 	case slot >= 76:
 		// the caller cancels (slots 76-79, instant set by the generator); the last slot adds a failing read
 		if slot == 79 {
@@ -193,12 +196,12 @@ func (c10) Gen(rng0 *rand.Rand, tier string, i int) *sim.Scenario {
 	sc.Faults = c10Fault(slot, rand.New(rand.NewPCG(uint64(i), 5)), wr.call.TimeoutMs)
 	ern := errnoPick(rand.New(rand.NewPCG(uint64(i), 6)))
 	for k := range sc.Faults {
-		if sc.Faults[k].Class == "fatal" || sc.Faults[k].Class == "slowfatal" {
+		if sc.Faults[k].Class == "fatal" || sc.Faults[k].Class == "slowfatal" || sc.Faults[k].Class == "fataldata" {
 			sc.Faults[k].Errno = ern
 		}
 	}
 	sc.Note = fmt.Sprintf("base=%d slot=%d", base, slot)
-	if slot >= 76 {
+	if slot >= 76 && slot < 80 {
 		// "on every path": the caller's cancellation is one more way for a run to end. Before the first
 		// operation, or at a seeded instant while probes are out and the receiver is reading.
 		crng := rand.New(rand.NewPCG(uint64(i), 7))
@@ -668,7 +671,7 @@ type c20 struct{}
 func init() { register(c20{}) }
 
 var c20Methods = []string{"syn", "sack", "prefer_sack", ""}
-var c20Caps = []string{"ok-ts", "ok", "noPermitted", "plainAck", "closed", "noSynAck", "unreach", "ok-synack-twice"}
+var c20Caps = []string{"ok-ts", "ok", "noPermitted", "plainAck", "closed", "noSynAck", "unreach", "ok-synack-twice", "ok-fin"}
 
 // unreachTarget is an address for which the worker's private network namespace holds the policy
 // rule "to 198.18.0.9 ipproto tcp unreachable": a TCP connect fails at once with ENETUNREACH (a
@@ -682,7 +685,7 @@ func (c20) ID() string     { return "C20" }
 func (c20) Level() string  { return "fault_enumeration" }
 func (c20) QuickRuns() int { return len(c20Methods) * len(c20Caps) * len(c20Faults) * 4 * 300 }
 func (c20) Rule() string {
-	return "finite matrix, enumerated by run index: TCP method {syn, sack, prefer_sack, \"\"} x target capability {listening with SACK-permitted +/- timestamps, listening without SACK-permitted, ACKs without SACK blocks, port closed (real ECONNREFUSED), TCP connect failing with ENETUNREACH (policy-routing rule in the worker's network namespace), handshake never captured} x injected non-capability failure {none, 1st/2nd filter install, 1st/2nd send, 1st/3rd read, handle construction} x end-to-end probes 0..3; topology, timing and the choice tape are seeded per repetition; non-trivial = a TCP endpoint was created; distinct = distinct matrix cells x topology shapes"
+	return "finite matrix, enumerated by run index: TCP method {syn, sack, prefer_sack, \"\"} x target capability {listening with SACK-permitted +/- timestamps, listening without SACK-permitted, ACKs without SACK blocks, port closed (real ECONNREFUSED), TCP connect failing with ENETUNREACH (policy-routing rule in the worker's network namespace), handshake never captured, SYN-ACK retransmitted during probing, target half-closing (FIN|ACK without SACK blocks) during probing} x injected non-capability failure {none, 1st/2nd filter install, 1st/2nd send, 1st/3rd read, handle construction} x end-to-end probes 0..3; topology, timing and the choice tape are seeded per repetition; non-trivial = a TCP endpoint was created; distinct = distinct matrix cells x topology shapes"
 }
 func (c20) Assumptions() []string {
 	return []string{"the SACK target is a real listening socket on loopback (the kernel completes the handshake); its SYN-ACK as seen by the capture handle is synthesised by the simulator with the scripted options"}
@@ -712,6 +715,11 @@ func (c20) Gen(rng *rand.Rand, tier string, i int) *sim.Scenario {
 	case "ok-synack-twice":
 		// the target retransmits its SYN-ACK (it missed the handshake ACK): seen again during probing
 		lis.SynAckDupUs = int64(pick(rng, 300, 5000, 30000, 120000))
+	case "ok-fin":
+		// the target closes its side right after accepting (a FIN|ACK with nothing to SACK yet arrives
+		// before or between the duplicate ACKs): it still answers every probe with SACK blocks
+		lis.FinAfterUs = int64(pick(rng, 1, 200, 3000, 20000, 150000))
+		lis.Timestamps = chance(rng, 0.5)
 	}
 	if capb == "unreach" {
 		c.Target, c.Listener, c.Port = unreachTarget, 0, 33434
@@ -889,6 +897,10 @@ func (c20) Check(out *sim.Outcome, ri *RunInfo) []Violation {
 	if capb == "ok-synack-twice" {
 		capb = "ok" // a retransmitted SYN-ACK changes nothing about the target's capability
 		ri.probe("synack-retransmitted")
+	}
+	if capb == "ok-fin" {
+		capb = "ok" // nor does a target that closes its own side: it acknowledges probes with SACK blocks all the same
+		ri.probe("target-half-closed")
 	}
 	if capb == "plainAck" {
 		if plainAckRead == 0 {
